@@ -464,7 +464,16 @@ pub fn level_fields(level: &J) -> Vec<P> {
                         })
                         .boxed();
                 }
-                fields.push(c);
+                // optionally the command choice and the option declared before it form one group
+                // with its own header (documentation shapes only: the value is nested one level)
+                let gh = s(tail, "grouped");
+                if !gh.is_empty() && !fields.is_empty() {
+                    let last = fields.pop().unwrap();
+                    let g = con(vec![last, c], false).group_help(leak(&dstr(gh))).boxed();
+                    fields.push(g);
+                } else {
+                    fields.push(c);
+                }
             }
             _ => {}
         }
